@@ -249,6 +249,26 @@ func rulesC15(w *World, o *Out) {
 			o.Check("C15.R3", "UpdateBridgeTransferUsageWithLimit|new total is the amount or stored total + amount", ok, w.Pos(st.Pos()), "unexpected usage arithmetic: "+strings.Join(names, "."))
 		}
 	}
+	// a window starts at the height of the transfer that opens it (or keeps the start it has): anchored anywhere
+	// else, the next transfer sees it as already expired and the tally restarts again and again
+	if upd != nil {
+		sts := storesToField(upd, "BridgeTransferUsage", "StartBlockHeight")
+		o.Count("C15.R3 window start assignments", len(sts), 1)
+		for _, st := range sts {
+			v := canon(st.Val)
+			ok := false
+			if c, isC := v.(*ssa.Call); isC {
+				if cal, okc := CalleeOf(c.Common()); okc && cal.Name == "BlockHeight" {
+					ok = true
+				}
+			}
+			if nm, _ := loadedField(v); nm == "StartBlockHeight" {
+				ok = true
+			}
+			o.Check("C15.R3", "UpdateBridgeTransferUsageWithLimit|a window starts at the current block height", ok, w.Pos(st.Pos()), "StartBlockHeight must be ctx.BlockHeight() (new window) or the stored start (ongoing window), not a value computed from the old window")
+		}
+	}
+
 	if add := w.MustFunc(o, skw, "Keeper", "AddToOutgoingPool"); add != nil && upd != nil {
 		us := FindCalls(add, false, func(c Callee) bool { return c.Static == upd })
 		lock := FindCalls(add, false, func(c Callee) bool { return c.Name == "SendCoinsFromAccountToModule" })
@@ -394,6 +414,29 @@ func rulesC16(w *World, o *Out) {
 				o.Check("C16.R2", op.handler+"|touches the creator's own balance only", okC, pos, "the address passed to "+op.what+" must be msg.Metadata.Creator")
 			}
 		}
+	}
+	// the per-denomination records are kept under the denomination exactly as spelled: sub-denominations are case
+	// sensitive, so a key builder that folds or trims makes two denominations share one authority record
+	for _, kb := range []string{"GetDenomPrefixStore", "GetCreatorPrefix", "GetCreatorsPrefix"} {
+		f := w.Func("x/tokenfactory/types", "", kb)
+		if f == nil || len(f.Blocks) == 0 {
+			if kb != "GetCreatorsPrefix" {
+				o.Unresolved("x/tokenfactory/types." + kb)
+			}
+			continue
+		}
+		lossy := ""
+		for _, r := range Returns(f) {
+			if len(r.Ret.Results) == 0 {
+				continue
+			}
+			if c := fl.DependsOnCall(r.Ret.Results[0], isLossyStringFunc); c != nil {
+				if cal, okc := CalleeOf(c.Common()); okc {
+					lossy = cal.String()
+				}
+			}
+		}
+		o.Check("C16.R6", kb+"|the store key keeps the name as spelled", lossy == "", w.Pos(f.Pos()), "the key passes its argument through "+lossy+": distinct denominations (factory/a/gold, factory/a/GOLD) then share one authority record, and creating one resets the admin of the other")
 	}
 	// ---- R7: the wasm binding that writes bank metadata itself ----
 	o.Rule("C16.R7", "the set_metadata wasm binding writes bank metadata only for the denomination whose admin it checked: the write is dominated by admin == contract for GetAuthorityMetadata(denom), and a metadata Base other than that denom is refused before the write")
@@ -642,6 +685,30 @@ func rulesC17(w *World, o *Out) {
 	o.Rule("C17.R3", "the evm ExecuteJob enqueues exactly one contract call on every success path, with the payload produced by injecting the requester's address zero-padded to 32 bytes, the address taken whole (no fixed-width truncation)")
 	o.Rule("C17.R4", "the requester whose address is injected is the message creator (not a signer); the scheduler keeps no in-memory copy of jobs beside the store")
 	memStateRule(w, o, "C17.R4", "which job definition and payload is executed", "x/scheduler")
+	// a contract that triggers a job is the requester: the wasm bindings pass the calling contract's address, never
+	// an address named inside the contract's message
+	nB := 0
+	for _, f := range w.ProdFuncs {
+		if !strings.HasSuffix(funcPkgPath(f), "/x/scheduler/bindings") {
+			continue
+		}
+		for _, c := range CallsIn(f) {
+			if c.Fn != f || c.Callee.Name != "ExecuteJob" || len(c.Args()) < 5 {
+				continue
+			}
+			nB++
+			args := c.Args()
+			ok := true
+			for _, a := range args[len(args)-2:] {
+				q, isP := canon(a).(*ssa.Parameter)
+				if !isP || !strings.HasSuffix(q.Type().String(), "AccAddress") {
+					ok = false
+				}
+			}
+			o.Check("C17.R4", w.FuncKey(TopFunc(f))+"|a contract-triggered execution names the calling contract as requester", ok, w.Pos(c.Instr.Pos()), "sender and contract address handed to ExecuteJob must be the contractAddr the wasm module passed in; an address taken from the message lets a contract put any identity into the call data")
+		}
+	}
+	o.Count("C17.R4 executions triggered by the wasm bindings", nB, 2)
 	if ej := w.MustFunc(o, sk, "msgServer", "ExecuteJob"); ej != nil {
 		o.Analysed(w.FuncKey(ej))
 		req := ej.Params[len(ej.Params)-1]
@@ -945,6 +1012,20 @@ func rulesC17(w *World, o *Out) {
 				if fl.DependsOnCall(baseArg, isCallee("x/evm/keeper", "Keeper", "unmarshalJob")) != nil {
 					okP = true
 				}
+				// the hex payload is decoded by common.FromHex (tolerates the 0x prefix); Hex2Bytes silently yields
+				// nothing for a prefixed string
+				_, bcalls := fl.Influence(baseArg)
+				for cc := range bcalls {
+					if cal, ok2 := CalleeOf(cc.Common()); ok2 && (cal.Name == "Hex2Bytes" || (cal.Pkg == "encoding/hex" && cal.Name == "DecodeString")) {
+						if pa2, _ := fl.Influence(cc.Call.Args[0]); len(pa2) > 0 {
+							for a := range pa2 {
+								if strings.Contains(a.String(), "HexPayload") {
+									trunc = append(trunc, cal.String()+" (drops a 0x-prefixed payload)")
+								}
+							}
+						}
+					}
+				}
 				ok = okS && okP && len(trunc) == 0
 				d = "the injected identity must be the requester's whole address (SenderAddress / ContractAddress) and the base the job payload; truncating conversions on the identity: " + strings.Join(trunc, ",")
 			}
@@ -1116,6 +1197,21 @@ func rulesC18(w *World, o *Out) {
 				}
 			}
 			okE := fl.DependsOnCall(args[2], isCallee("", "", "BlockTime")) != nil && fl.DependsOnCall(args[2], func(c Callee) bool { return c.Name == "AddDate" }) != nil
+			// ... later by the licence's months: AddDate(0, VestingMonths, 0)
+			if ad := fl.DependsOnCall(args[2], func(c Callee) bool { return c.Name == "AddDate" && c.Recv == "Time" }); ad != nil && len(ad.Call.Args) == 4 {
+				zero := func(v ssa.Value) bool {
+					k, isK := v.(*ssa.Const)
+					return isK && k.Value != nil && k.Int64() == 0
+				}
+				mo, _ := fl.Influence(ad.Call.Args[2])
+				months := false
+				for a := range mo {
+					if strings.HasSuffix(a.Path, ".VestingMonths") {
+						months = true
+					}
+				}
+				o.Check("C18.R1", "CreateLightNodeClientAccount|the vesting period is counted in months", zero(ad.Call.Args[1]) && zero(ad.Call.Args[3]) && months, w.Pos(ad.Pos()), "the end of vesting must be BlockTime().AddDate(0, license.VestingMonths, 0); the months in the years or days position change the schedule by a factor of 12 or 30")
+			}
 			e2, _ := fl.Influence(args[2])
 			okM := false
 			for a := range e2 {
